@@ -63,6 +63,24 @@ theorem slices_layout (ν τ : Nat) (ct n tag : Bytes) (hn : n.length = ν) (ht 
   rw [e1, e2, e3]
   simp [List.take_append, List.drop_append, List.append_assoc]
 
+/-- for any message long enough, the three slices tile everything but the last four bytes. -/
+theorem slices_concat (ν τ : Nat) (b : Bytes) (h : ν + τ + 4 ≤ b.length) :
+    (slices ν τ b).ct ++ (slices ν τ b).nonce ++ (slices ν τ b).tag = b.take (b.length - 4) := by
+  simp only [slices, pyslice, normIdx, lenEndBytes]
+  have h1 : (-( (ν : Int) + (τ : Int) + ((4 : Nat) : Int)) < 0) := by omega
+  have h2 : (-( (τ : Int) + ((4 : Nat) : Int)) < 0) := by omega
+  have h3 : (-(((4 : Nat) : Int)) < 0) := by omega
+  simp only [h1, h2, h3, if_true]
+  have e1 : (-( (ν : Int) + (τ : Int) + ((4 : Nat) : Int)) + (b.length : Int)).toNat = b.length - (ν + τ + 4) := by omega
+  have e2 : (-( (τ : Int) + ((4 : Nat) : Int)) + (b.length : Int)).toNat = b.length - (τ + 4) := by omega
+  have e3 : (-(((4 : Nat) : Int)) + (b.length : Int)).toNat = b.length - 4 := by omega
+  rw [e1, e2, e3]
+  have a1 : b.length - (τ + 4) - (b.length - (ν + τ + 4)) = ν := by omega
+  have a2 : b.length - 4 - (b.length - (τ + 4)) = τ := by omega
+  rw [a1, a2, List.drop_zero, Nat.sub_zero]
+  have d1 : b.length - (τ + 4) = (b.length - (ν + τ + 4)) + ν := by omega
+  have d2 : b.length - 4 = (b.length - (ν + τ + 4)) + ν + τ := by omega
+  rw [d2, d1, List.take_add, List.take_add]
 theorem layout_length (ct n tag : Bytes) :
     (layout ct n tag).length = ct.length + n.length + tag.length + 4 := by
   simp [layout, endBytes]; omega
@@ -143,6 +161,46 @@ theorem pad_length_ge (t : String) (h : t ≠ "") : padModulo ≤ (pad t).length
 
 theorem pad_empty : pad "" = "" := by
   simp [pad, padCount, padModulo]
+
+/-! ### configuration validity and the shape of an output -/
+
+variable {σ : Type}
+
+/-- supported configuration: key of 16/24/32 bytes, nonce length ≥ 1, tag length 4…16. -/
+def Cfg.Valid (c : Cfg) : Prop :=
+  (c.key.length = 16 ∨ c.key.length = 24 ∨ c.key.length = 32) ∧ 1 ≤ c.nonceLen ∧ 4 ≤ c.macLen ∧ c.macLen ≤ 16
+
+instance (c : Cfg) : Decidable c.Valid := by unfold Cfg.Valid; exact inferInstance
+
+/-- the nonce source returns as many bytes as it is asked for (`get_random_bytes(n)`). -/
+def DrawLen {σ : Type} (draw : Draw σ) : Prop := ∀ n s, ((draw n s).1).length = n
+
+theorem validParams_of (c : Cfg) (hv : c.Valid) (draw : Draw σ) (hd : DrawLen draw) (s : σ) :
+    ValidParams c.key (draw c.nonceLen s).1 c.macLen := by
+  obtain ⟨hk, hn, h4, h16⟩ := hv
+  refine ⟨hk, ?_, h4, h16⟩
+  intro e
+  have := hd c.nonceLen s
+  rw [e] at this; simp at this; omega
+
+/-- what `encrypt` returns, in terms of the cipher's answer. -/
+theorem encrypt_eq (C : Cipher) (c : Cfg) (draw : Draw σ) (s : σ) (t : String) :
+    (encrypt C c draw s t).1 =
+      layout (C.sealFn c.key (draw c.nonceLen s).1 c.macLen (utf8 (pad t))).1 (draw c.nonceLen s).1
+             (C.sealFn c.key (draw c.nonceLen s).1 c.macLen (utf8 (pad t))).2 := rfl
+
+/-- the (ciphertext, nonce, tag) slots of an output are what the cipher and the nonce source returned. -/
+theorem slices_encrypt (A : AEAD) (c : Cfg) (hv : c.Valid) (draw : Draw σ) (hd : DrawLen draw) (s : σ) (t : String) :
+    slices c.nonceLen c.macLen (encrypt A.toCipher c draw s t).1 =
+      ⟨(A.sealFn c.key (draw c.nonceLen s).1 c.macLen (utf8 (pad t))).1, (draw c.nonceLen s).1,
+       (A.sealFn c.key (draw c.nonceLen s).1 c.macLen (utf8 (pad t))).2⟩ := by
+  rw [encrypt_eq]
+  exact slices_layout _ _ _ _ _ (hd _ _) (A.seal_tag_len _ _ _ _ (validParams_of c hv draw hd s))
+
+theorem encrypt_length (A : AEAD) (c : Cfg) (hv : c.Valid) (draw : Draw σ) (hd : DrawLen draw) (s : σ) (t : String) :
+    (encrypt A.toCipher c draw s t).1.length = (utf8 (pad t)).length + c.nonceLen + c.macLen + lenEndBytes := by
+  rw [encrypt_eq, layout_length, A.seal_ct_len, hd, A.seal_tag_len _ _ _ _ (validParams_of c hv draw hd s)]
+  rfl
 
 /-! ### a toy AEAD (identity "encryption", additive checksum as tag): shows that the assumed
 laws are jointly satisfiable; used only by the `example`s. -/
